@@ -268,6 +268,9 @@ pub fn run_case(case: &Case, prefix: Vec<u32>, profile: ChoiceProfile) -> Run {
         // the listening socket lives on in the main process (here: the harness): connecting must still work
         flag("listener-lost-in-hand-over".into(), "after ReturnListenSockets a new connection to the listener address was refused".into());
     }
+    for p in sc.peers.iter().skip(3) {
+        obs.push_str(&format!(" {}:{}", p.name, if p.connect_failed { "refused" } else if p.conn.reset { "reset" } else if p.conn.eof { "closed" } else { "open" }));
+    }
     drop(flag);
     Run { trace: exec.trace, observation: obs, violations, diverged: exec.diverged }
 }
